@@ -132,7 +132,7 @@ history([0, 1, 2, 3][:{hist}], [0, 1, 2, 3][:{hist}])
 def gen_tasks(tier, seed):
     rng = random.Random(seed + 17)
     tasks = []
-    dags = I.dag_graphs(tier, rng, quick_n=6, thorough_n5=40)
+    dags = I.dag_graphs(tier, rng, quick_n=6, thorough_n5=100)
     digs = I.digraphs(tier, rng, quick_n=6, thorough_n=40)
     # reachability histories (CrossHair)
     pick = ([d for d in dags if d[0] in ("diamond_cross", "bubble_chain", "two_components")] + dags[-2:], [d for d in digs if d[0] in ("nested", "parallel_inter_scc", "two_sccs")] + digs[-2:])
